@@ -12,6 +12,7 @@ type Row []any
 type Value []byte
 
 type Result struct {
+	Fields       []string
 	Rows         [][]Value
 	RowsAffected uint64
 }
@@ -68,14 +69,14 @@ const batchSize = 4
 
 type Handler struct{}
 
-func (h *Handler) doQuery(ctx *Ctx, iter Iter, one bool, callback func(*Result, bool) error, buf *ByteBuffer) error {
+func (h *Handler) doQuery(ctx *Ctx, iter Iter, one bool, fields []string, callback func(*Result, bool) error, buf *ByteBuffer) error {
 	var r *Result
 	var processed bool
 	var err error
 	if one {
-		r, err = resultForOne(ctx, iter, buf)
+		r, err = resultForOne(ctx, iter, fields, buf)
 	} else {
-		r, processed, err = h.resultForRows(ctx, iter, callback, buf)
+		r, processed, err = h.resultForRows(ctx, iter, fields, callback, buf)
 	}
 	if err != nil {
 		return err
@@ -87,11 +88,11 @@ func (h *Handler) doQuery(ctx *Ctx, iter Iter, one bool, callback func(*Result, 
 	return callback(r, false)
 }
 
-func resultForOne(ctx *Ctx, iter Iter, buf *ByteBuffer) (*Result, error) {
+func resultForOne(ctx *Ctx, iter Iter, fields []string, buf *ByteBuffer) (*Result, error) {
 	defer iter.Close(ctx) // BAD (E1): the Close error (failed commit) is dropped on the success paths
 	row, err := iter.Next(ctx)
 	if err == io.EOF {
-		return &Result{}, nil
+		return &Result{Fields: fields}, nil
 	} else if err != nil {
 		return nil, err
 	}
@@ -99,10 +100,10 @@ func resultForOne(ctx *Ctx, iter Iter, buf *ByteBuffer) (*Result, error) {
 	if err != nil {
 		return nil, err
 	}
-	return &Result{Rows: [][]Value{out}, RowsAffected: 1}, nil
+	return &Result{Fields: fields, Rows: [][]Value{out}, RowsAffected: 1}, nil
 }
 
-func (h *Handler) resultForRows(ctx *Ctx, iter Iter, callback func(*Result, bool) error, buf *ByteBuffer) (*Result, bool, error) {
+func (h *Handler) resultForRows(ctx *Ctx, iter Iter, fields []string, callback func(*Result, bool) error, buf *ByteBuffer) (*Result, bool, error) {
 	eg, ctx := ctx.NewErrgroup()
 
 	callback = func(r *Result, more bool) error { // BAD (W1): refers to the variable it is stored in
@@ -135,7 +136,7 @@ func (h *Handler) resultForRows(ctx *Ctx, iter Iter, callback func(*Result, bool
 		defer close(resChan)
 		for {
 			if res == nil {
-				res = &Result{Rows: make([][]Value, 0, batchSize)}
+				res = &Result{Fields: fields, Rows: make([][]Value, 0, batchSize)}
 			}
 			select {
 			case <-ctx.Done(): // BAD (P3): the Done case does not leave the stage
